@@ -677,7 +677,9 @@ def run(ctx):
                 st['bad_' + rec['how']] += 1
                 continue
             ticks, log = info['ticks'], info['log']
-            if mode == 'G-gen-u':
+            if mode == 'G-gen-u' and len(info['g'].priority_probs) != 3:
+                st['u_cases_with_wrong_number_of_classes'] += 1    # (reported by the monitor / the correspondence)
+            elif mode == 'G-gen-u':
                 pp = [float(x) for x in info['g'].priority_probs]
                 fc = np.asarray(pp).cumsum()
                 fc = [float(x) for x in fc / fc[-1]]
